@@ -57,7 +57,17 @@ type OwnView struct {
 	Thr   uint64 `json:"thr"`
 	Kind  int    `json:"kind"` // 0 chamber 1 house 2 other
 }
+type CredEntry struct {
+	From int    `json:"from"`
+	R    uint64 `json:"r"`
+	I    uint32 `json:"i"`
+	T    int    `json:"t"`
+	W    uint32 `json:"w"`
+}
 type Env struct {
+	// Creds: the sortition verifier as a table: the seat count the sender's own proof for
+	// (round, index, type) yields.  Real mode: computed from the VRF sortition.
+	Creds   []CredEntry `json:"creds,omitempty"`
 	Own     []OwnView `json:"own"`
 	CertpOk bool      `json:"certp_ok"`
 	EvidOn  bool      `json:"evid_on"`
@@ -81,7 +91,14 @@ type MsgOp struct {
 	StakeOk bool   `json:"stake_ok"`
 	Thr     uint64 `json:"thr"`
 	Kind    int    `json:"kind"`
-	Cred    int    `json:"cred"` // 0 given false 1 given true 2 vrf invalid 3 vrf valid
+	// Proof: which sortition proof the vote carries: 1 the sender's own proof for (round,
+	// index, type); 2 garbage; 3 the sender's proof for another vote type.  0 = derive from Cred.
+	Proof int `json:"proof,omitempty"`
+	// Cred is derived (normalize): what the sortition verifier says about (credential,
+	// claimed seats): 0 invalid 1 valid (stub verifier) 2 invalid 3 valid (Server.verifySortition).
+	// In a hand-written history with Proof 0 it is read as the intent: 1/3 = "this claim
+	// is the sender's true weight", 0/2 = "not valid".
+	Cred int `json:"cred"`
 }
 type Op struct {
 	K       string  `json:"k"` // ctx msg cache srv restart
@@ -399,7 +416,6 @@ type cur struct {
 	stakeOk bool
 	thr     uint64
 	kind    int
-	cred    bool
 }
 
 type impl struct {
@@ -412,6 +428,22 @@ type impl struct {
 	srv    *ucon.Server
 	seed   common.Hash
 	reader *fakeReader
+}
+
+// credWeight: the sortition verifier's weight for (sender, round, index, type); 0 = no seat
+func credWeight(h *History, from int, r uint64, i uint32, t int) uint32 {
+	for k := range h.Env.Creds {
+		c := &h.Env.Creds[k]
+		if c.From == from && c.R == r && c.I == i && c.T == t {
+			return c.W
+		}
+	}
+	return 0
+}
+
+// stubProof: the (stub) sortition proof of a key for (round, index, type)
+func stubProof(from int, r uint64, i uint32, t int) []byte {
+	return crypto.Keccak256([]byte(fmt.Sprintf("verif-c03-proof-%d-%d-%d-%d", from, r, i, t)))[:16]
 }
 
 func ownLookup(h *History, r uint64, i uint32, t int) *OwnView {
@@ -430,11 +462,26 @@ func newImpl(h *History) *impl {
 	im := &impl{h: h, cache: map[int]bool{}}
 	yp := params.Versions[params.YouCurrentVersion]
 	im.pm = &fakeParams{h: h, yp: yp, lbv: newFakeReader(nil)}
+	// the stub sortition verifier does what VrfVerifySortition does, over a table: the
+	// proof must be the key's proof for (round, index, step), must win a seat, and the
+	// claimed seat count must be the one the proof yields.  It never trusts the claim.
 	var verifySort ucon.VerifySortitionFn = func(pub *ecdsa.PublicKey, data *ucon.SortitionData, lb params.LookBackType) error {
-		if im.cur.cred {
-			return nil
+		id, ok := addrID[crypto.PubkeyToAddress(*pub)]
+		t := vtIndex(ucon.VoteType(data.Step))
+		if !ok || t < 0 {
+			return errors.New("unknown key or step")
 		}
-		return errors.New("bad credential")
+		if string(data.Proof) != string(stubProof(id, data.Round.Uint64(), data.RoundIndex, t)) {
+			return errors.New("proof does not verify")
+		}
+		w := credWeight(h, id, data.Round.Uint64(), data.RoundIndex, t)
+		if w == 0 {
+			return errors.New("not a validator")
+		}
+		if w != data.Votes {
+			return fmt.Errorf("sub-users' number is not correct: %d, %d", w, data.Votes)
+		}
+		return nil
 	}
 	getStake := func(round *big.Int, addr common.Address, isProposer bool, lb params.LookBackType) (*big.Int, *big.Int, uint64, params.ValidatorKind, uint8, error) {
 		if !im.cur.stakeOk {
@@ -587,14 +634,19 @@ func (im *impl) buildMsg(m *MsgOp) (*ucon.BlockHashWithVotes, common.Address) {
 	if m.NoVote {
 		return msg, claimed
 	}
-	vote := &ucon.SingleVote{Votes: m.Votes, Proof: []byte{byte(m.Cred)}}
-	if im.h.Env.Real {
-		if m.Cred == 3 || (m.Votes%2 == 1 && m.Sender < len(im.h.Env.Stakes)) {
-			// a real proof; with Cred 2 the claimed seat count is not the sortition's
-			vote.Proof = im.proof(m.Sender, m.I, m.T)
-		} else {
-			vote.Proof = []byte{1, 2, 3}
-		}
+	vote := &ucon.SingleVote{Votes: m.Votes}
+	otherT := (m.T + 1) % 4
+	switch {
+	case m.Proof == 1 && im.h.Env.Real && m.Sender < len(im.h.Env.Stakes):
+		vote.Proof = im.proof(m.Sender, m.I, m.T)
+	case m.Proof == 3 && im.h.Env.Real && m.Sender < len(im.h.Env.Stakes):
+		vote.Proof = im.proof(m.Sender, m.I, otherT)
+	case m.Proof == 1:
+		vote.Proof = stubProof(m.Sender, m.R, m.I, m.T)
+	case m.Proof == 3:
+		vote.Proof = stubProof(m.Sender, m.R, m.I, otherT)
+	default:
+		vote.Proof = []byte{1, 2, 3}
 	}
 	switch m.Sig {
 	case 0, 3:
@@ -625,7 +677,6 @@ func (im *impl) apply(o *Op) Obs {
 	case "msg":
 		m := o.M
 		im.cur.stakeOk, im.cur.thr, im.cur.kind = m.StakeOk, m.Thr, m.Kind
-		im.cur.cred = m.Cred == 1
 		msg, claimed := im.buildMsg(m)
 		err, invalid := ucon.VerifC03ProcessVoteMsg(im.v, vtypes[m.T], msg, claimed, statusVals[m.Status])
 		switch {
@@ -890,6 +941,19 @@ func (o *oracle) step(op *Op, ob *Obs) {
 				accepted = false
 			}
 		}
+		if !accepted && m.StakeOk && m.Kind != 2 && ob.recorded {
+			// the oracle rejects the vote, the implementation has the sender recorded:
+			// fine if it was recorded by an earlier, accepted vote - otherwise a vote
+			// was counted that must not be
+			if _, ok := o.tal(tkey{m.R, m.I, m.T + 10*m.Kind}).first[m.Sender]; !ok {
+				w := credWeight(o.h, m.Sender, m.R, m.I, m.T)
+				if !m.NoVote && m.Sig == 0 && !o.credTruth(m) {
+					o.hit(fmt.Sprintf("unverified_weight_counted: %s vote of sender %d for block %d at (%d,%d) is recorded with %d claimed seats (count now %d); the sortition verifier gives this credential (proof kind %d) the weight %d", vtName[m.T], m.Sender, m.H, m.R, m.I, m.Votes, ob.Count, m.Proof, w))
+				} else {
+					o.hit(fmt.Sprintf("rejected_vote_counted: %s vote of sender %d for block %d at (%d,%d) (status %s) must not be counted but the sender is recorded", vtName[m.T], m.Sender, m.H, m.R, m.I, statusCoq[m.Status]))
+				}
+			}
+		}
 		if accepted && m.Kind != 2 {
 			// chamber and house are tallied apart; only chamber escalates
 			k := tkey{m.R, m.I, m.T + 10*m.Kind}
@@ -1132,8 +1196,9 @@ func (o *oracle) credAccepted(id int, r uint64, i uint32, t int, seats uint32) b
 	}
 	for k := range o.h.Ops {
 		op := &o.h.Ops[k]
-		if op.K == "msg" && op.M.Sender == id && op.M.R == r && op.M.I == i && op.M.T == t && op.M.Votes == seats && !op.M.NoVote {
-			return o.credTruth(op.M) && op.M.StakeOk && op.M.Kind == 0
+		if op.K == "msg" && op.M.Sender == id && op.M.R == r && op.M.I == i && op.M.T == t && op.M.Votes == seats && !op.M.NoVote &&
+			o.credTruth(op.M) && op.M.StakeOk && op.M.Kind == 0 {
+			return true // some delivery of this vote carried a credential the verifier accepts for these seats
 		}
 	}
 	return false
@@ -1146,7 +1211,13 @@ func envCoq(e *Env) string {
 	for _, o := range e.Own {
 		own = append(own, fmt.Sprintf("(%d, %d, %s, (%d, %d, %s))", o.R, o.I, vtCoq[o.T], o.Seats, o.Thr, kindCoq[o.Kind]))
 	}
-	return fmt.Sprintf("(mkEnv 0 %s %s %s %s %s)", vf.List(own), vf.Bool(e.CertpOk), vf.Bool(e.EvidOn), vf.Bool(fixLatch), vf.Bool(fixStale))
+	var creds []string
+	for _, c := range e.Creds {
+		if c.W > 0 {
+			creds = append(creds, fmt.Sprintf("(%d, %d, %d, %s, %d)", c.From, c.R, c.I, vtCoq[c.T], c.W))
+		}
+	}
+	return fmt.Sprintf("(mkEnv 0 %s %s %s %s %s %s %s)", vf.List(own), vf.Bool(e.CertpOk), vf.Bool(e.EvidOn), vf.Bool(fixLatch), vf.Bool(fixStale), vf.Bool(e.Real), vf.List(creds))
 }
 
 func opCoq(o *Op) string {
@@ -1163,17 +1234,7 @@ func opCoq(o *Op) string {
 		if m.StakeOk {
 			stake = fmt.Sprintf("(Some (%d, %s))", m.Thr, kindCoq[m.Kind])
 		}
-		cred := ""
-		switch m.Cred {
-		case 0:
-			cred = "(CredGiven false)"
-		case 1:
-			cred = "(CredGiven true)"
-		case 2:
-			cred = "(CredVrf false)"
-		default:
-			cred = "(CredVrf true)"
-		}
+		cred := fmt.Sprint(m.Proof)
 		return fmt.Sprintf("Msg (mkMsg %s %s %d %d %d %d %d %s %d %s %s %s)", statusCoq[m.Status], vtCoq[m.T], m.R, m.I, m.H, m.P, m.Sender,
 			vf.Bool(m.Sig == 0), m.Votes, vf.Bool(m.NoVote), stake, cred)
 	case "cache":
@@ -1209,6 +1270,7 @@ func probeRepairs() {
 		{K: "cache", H: 1, Present: true}, {K: "ctx", R: 32768, I: 1, Step: 4, Cert: true},
 		pm(1, 1, 1, 1), pm(1, 1, 2, 1), pm(1, 2, 1, 1), pm(3, 1, 3, 2)}}
 	fixLatch = true
+	normalize(&w1)
 	im := newImpl(&w1)
 	for k := range w1.Ops {
 		ob := im.apply(&w1.Ops[k])
@@ -1264,6 +1326,7 @@ func runHistory(h *History) runResult {
 func normalize(h *History) {
 	if h.Env.Real {
 		h.Env.CertpOk = true
+		h.Env.Creds = nil // computed below from the sortition
 		if len(h.Env.Stakes) == 0 {
 			h.Env.Stakes = []uint64{10}
 		}
@@ -1310,25 +1373,54 @@ func normalize(h *History) {
 			if o.M.H < 0 || o.M.H >= nHashes {
 				o.M.H = 1
 			}
+			m := o.M
 			if h.Env.Real {
 				// the stake look-up and the credential are what the fake chain and the VRF say
-				o.M.StakeOk = o.M.Sender < len(h.Env.Stakes)
-				o.M.Thr = h.Env.ValThr
-				o.M.Kind = 0
-				if o.M.Cred < 2 {
-					o.M.Cred += 2
-				}
-				if o.M.StakeOk {
-					_, sub := realSortition(h, o.M.Sender, o.M.I, o.M.T)
-					if o.M.Cred == 3 && (sub == 0 || sub != o.M.Votes) {
-						o.M.Cred = 2
+				m.StakeOk = m.Sender < len(h.Env.Stakes)
+				m.Thr = h.Env.ValThr
+				m.Kind = 0
+				if m.Proof == 0 {
+					switch {
+					case m.Cred == 1 || m.Cred == 3 || m.Votes%2 == 1:
+						m.Proof = 1
+					default:
+						m.Proof = 2
 					}
-					if o.M.Cred == 2 && sub > 0 && sub == o.M.Votes && sub%2 == 1 {
-						o.M.Cred = 3 // a real proof with the right seat count is valid
-					}
-				} else {
-					o.M.Cred = 2 // never reached: the stake look-up fails first
 				}
+				if m.StakeOk && credWeight(h, m.Sender, m.R, m.I, m.T) == 0 {
+					if _, sub := realSortition(h, m.Sender, m.I, m.T); sub > 0 {
+						h.Env.Creds = append(h.Env.Creds, CredEntry{m.Sender, m.R, m.I, m.T, sub})
+					}
+				}
+			} else {
+				w := credWeight(h, m.Sender, m.R, m.I, m.T)
+				if m.Proof == 0 {
+					intentValid := m.Cred == 1 || m.Cred == 3
+					switch {
+					case intentValid:
+						m.Proof = 1
+						if w == 0 && m.Votes > 0 { // the first valid claim defines the sender's weight
+							h.Env.Creds = append(h.Env.Creds, CredEntry{m.Sender, m.R, m.I, m.T, m.Votes})
+						}
+					case w != 0 && w != m.Votes:
+						m.Proof = 1 // the right proof with a wrong seat claim
+					default:
+						m.Proof = 2
+					}
+				}
+			}
+			// what the sortition verifier says about (credential, claim)
+			w := credWeight(h, m.Sender, m.R, m.I, m.T)
+			valid := m.Proof == 1 && w > 0 && w == m.Votes && (!h.Env.Real || m.StakeOk)
+			switch {
+			case h.Env.Real && valid:
+				m.Cred = 3
+			case h.Env.Real:
+				m.Cred = 2
+			case valid:
+				m.Cred = 1
+			default:
+				m.Cred = 0
 			}
 		case "cache":
 			if o.H < 1 || o.H > nBlocks {
@@ -1431,6 +1523,58 @@ func (g *genState) ctx(step uint32) {
 	g.h.Ops = append(g.h.Ops, o)
 }
 
+// resend: the vote m arrives early (future / invalid status: its credential is verified,
+// the vote is not counted) and is sent again with exactly one field changed - or unchanged.
+// Nothing the voter learnt from the first delivery may stand in for verifying the second.
+func resend(r *vf.Rng, ops *[]Op, m MsgOp, otherHash int) {
+	early := m
+	early.Status = 3 + r.Intn(2)
+	if r.Chance(20) {
+		early.Status = 2 // or for a context the voter is not in
+		early.R += 1
+	}
+	e := early
+	*ops = append(*ops, Op{K: "msg", M: &e})
+	if early.R != m.R { // the credential table is per round: nothing to re-send
+		mm := m
+		*ops = append(*ops, Op{K: "msg", M: &mm})
+		return
+	}
+	mm := m
+	mm.Proof = 0
+	switch r.Intn(9) {
+	case 0:
+	case 1, 2:
+		mm.Votes += 1 + uint32(r.Intn(1<<uint(r.Intn(20))))
+		mm.Cred = 0
+		mm.Proof = 1
+	case 3:
+		if mm.Votes > 1 {
+			mm.Votes -= 1 + uint32(r.Intn(int(mm.Votes-1)))
+		} else {
+			mm.Votes++
+		}
+		mm.Cred = 0
+		mm.Proof = 1
+	case 4:
+		mm.Proof, mm.Cred = 2, 0
+	case 5:
+		mm.Proof, mm.Cred = 3, 0
+	case 6:
+		mm.H = otherHash
+	case 7:
+		mm.Sig = 1 + r.Intn(3)
+	default: // another vote type with the first type's proof
+		mm.T = (m.T + 3) % 4
+		mm.Proof, mm.Cred = 3, 0
+	}
+	*ops = append(*ops, Op{K: "msg", M: &mm})
+	if r.Chance(30) { // and the honest one after all
+		hm := m
+		*ops = append(*ops, Op{K: "msg", M: &hm})
+	}
+}
+
 // restart: the process comes back and re-enters the round, usually at index 1
 // (clearData(true)), sometimes at the index it was in
 func (g *genState) restart() {
@@ -1495,6 +1639,10 @@ func (g *genState) msg(status, t int, r uint64, i uint32, sender, h int) {
 			g.credMem[k] = want
 			m.Cred = want
 		}
+	}
+	if status == 2 && m.Cred == 1 && m.Sig == 0 && g.r.Chance(8) {
+		resend(g.r, &g.h.Ops, *m, 1+(h%nBlocks))
+		return
 	}
 	g.h.Ops = append(g.h.Ops, Op{K: "msg", M: m})
 }
@@ -1736,6 +1884,10 @@ func genFlow(r *vf.Rng) History {
 		if t == 3 {
 			m.Thr = g.thrC
 		}
+		if hash == g.lead && r.Chance(12) {
+			resend(r, &h.Ops, *m, other)
+			return
+		}
 		h.Ops = append(h.Ops, Op{K: "msg", M: m})
 	}
 	order := func() []int {
@@ -1868,6 +2020,10 @@ func genContexts(r *vf.Rng) History {
 		if t == 3 {
 			m.Thr = g.thrC
 		}
+		if st == 2 && r.Chance(8) {
+			resend(r, &h.Ops, *m, 1+(hash%nBlocks))
+			return
+		}
 		h.Ops = append(h.Ops, Op{K: "msg", M: m})
 	}
 	n := 4 + r.Intn(5)
@@ -1948,6 +2104,10 @@ func genReal(r *vf.Rng) History {
 			if m.Sender >= nKeys {
 				m.Sender = nKeys - 1
 			}
+		}
+		if valid && m.Sig == 0 && sub > 0 && r.Chance(15) {
+			resend(r, &h.Ops, *m, other)
+			return
 		}
 		add(Op{K: "msg", M: m})
 	}
